@@ -45,4 +45,4 @@ def run(ctx):
     ctx.explain("E-UNITS: no variable number meets a level number in the TDD rules crate.")
     nfn, _ = eunits.run(ctx, F, crates=("oxidd_rules_tdd",))
     ctx.floor("E-UNITS", "function bodies analysed", nfn, 25)
-    ctx.not_decided = "eval, apply_not"
+    ctx.not_decided = "eval (beyond the unit discipline of its slot addressing)"
